@@ -148,14 +148,16 @@ func mkReqNameC53(name string) *bfe_basic.Request {
 //  1 jail length, Threshold 1, one key: two requests within one CheckPeriod of the first (the counter's
 //    own window) jail the key; a third request before (window start + CheckPeriod + StayPeriod), i.e.
 //    before "StayPeriod plus the rest of that period" has passed, is denied.
-//  2 other keys, Threshold 0, accessDictSize 2 < prisonDictSize 3: keys A, B, C are jailed one after the
-//    other (3 jailed keys fit the prison dictionary); A is still denied before its StayPeriod has passed.
+//  2 other keys, Threshold 1, accessDictSize 1 < prisonDictSize 2: key A is jailed by two requests, then key
+//    B by two requests (2 jailed keys fit the prison dictionary; a key's counter is dropped when it is
+//    jailed, so one counter slot suffices); A is still denied before its StayPeriod has passed.
+//    (With Threshold 0 the probe would be jailed afresh on the spot and an eviction would go unnoticed.)
 func VerifC53_scenarios() {
 	period, stay := int64(vrt.U16("period")), int64(vrt.U16("stay"))
 	vrt.Assume(period > 0 && period < 1<<12 && stay > 0 && stay < 1<<12)
 	scenario := vrt.Choose("scenario", 3)
-	names := [][]string{{"alice", "alice", "alice", "alice"}, {"alice", "alice", "alice"}, {"alice", "bob", "carol", "alice"}}[scenario]
-	threshold := []int32{1, 1, 0}[scenario]
+	names := [][]string{{"alice", "alice", "alice", "alice"}, {"alice", "alice", "alice"}, {"alice", "alice", "bob", "bob", "alice"}}[scenario]
+	threshold := int32(1)
 	r := new(prisonRule)
 	r.name = "r"
 	r.condStr = "default_t()"
@@ -164,12 +166,12 @@ func VerifC53_scenarios() {
 	r.checkPeriodNs, r.stayPeriodNs, r.threshold = period, stay, threshold
 	r.accessDictSize, r.prisonDictSize = 16, 16
 	if scenario == 2 {
-		r.accessDictSize, r.prisonDictSize = 2, 3
+		r.accessDictSize, r.prisonDictSize = 1, 2
 	}
 	r.initDict(nil)
 
-	var a, b [4]int64
-	var denied [4]bool
+	var a, b [5]int64
+	var denied [5]bool
 	for i := range names {
 		req := mkReqNameC53(names[i])
 		a[i] = time.Now().UnixNano()
@@ -184,8 +186,11 @@ func VerifC53_scenarios() {
 		if scenario == 0 && i >= 1 {
 			vrt.Assume(b[i]-a[1] <= period)
 		}
-		if scenario == 1 && i == 1 {
+		if (scenario == 1 || scenario == 2) && i == 1 {
 			vrt.Assume(b[1]-a[0] <= period)
+		}
+		if scenario == 2 && i == 3 {
+			vrt.Assume(b[3]-a[2] <= period)
 		}
 	}
 	switch scenario {
@@ -198,9 +203,9 @@ func VerifC53_scenarios() {
 			vrt.Assert(denied[2], "C53/denied-until-stay-plus-rest-of-period")
 		}
 	case 2:
-		vrt.Assert(denied[0] && denied[1] && denied[2], "C53/each-key-jailed")
-		if b[3] < a[0]+stay {
-			vrt.Assert(denied[3], "C53/jailed-key-unaffected-by-other-keys")
+		vrt.Assert(!denied[0] && denied[1] && !denied[2] && denied[3], "C53/each-key-jailed")
+		if b[4] < a[1]+stay {
+			vrt.Assert(denied[4], "C53/jailed-key-unaffected-by-other-keys")
 		}
 	}
 }
